@@ -20,6 +20,10 @@ def run(ctx):
         Ob('merge_unit', 'ob_merge_unit', '', packed=[('new_i', NL), ('old_i', NL)], cells=[('new%d' % i, [{'new_i': i}]) for i in range(NL)], timeout=tmo,
            desc='merge_middlewares(old, new) on the same catalogue; the input list is not mutated'),
     ]
+    NSP = H.NSP
+    obs.append(Ob('special_kinds', 'ob_special', '', packed=[('outer_i', NSP), ('mid_sel', 4), ('inner_i', NSP)], cells=[('outer%d' % i, [{'outer_i': i}]) for i in range(NSP)], timeout=tmo, confirm='confirm_special',
+                  desc='application / embedded application / route lists (<= 2) over: two DISTINCT classes sharing one __name__, a class whose request/endpoint/render hooks are callable objects set per instance, '
+                       'a non-unique class (up to 5 instances in one stack): the full enter/leave trace of all three phases equals the onion of the merged list'))
     res.merge(run_obligations('C03', 'harness.c03', obs, ctx.tier))
     res.functions_encoded += ['clastic.middleware.core.merge_middlewares', 'Middleware.__eq__/__ne__', 'BoundRoute.__init__ (merge call)', 'SubApplication.bind_all']
     res.bounds.update(dict(merge='lists of <= 2 middleware instances per level over 5 types, 2 or 3 levels'))
